@@ -414,7 +414,7 @@ def lexMacroStringInStrCall (cfg : Cfg) (maskMacro : Bool) (pnl : Nat) : Prog Un
   dbg cfg (do pure ((← mode) == .macroStrQuotedExpr maskMacro pnl)) "lex_macro_string_in_str_call: mode"
   -- `last_lit_end_byte_offset = self.cur_byte_offset()` here, i.e. possibly after a char
   -- that the dispatcher has already consumed
-  perform .litBegin
+  perform .litBeginAtTok
   lexMacroStringInStrCallLoop maskMacro pnl (← fuelOfRest) 0
 
 /-! ## `dispatch_macro_str_quoted_expr` -/
